@@ -37,7 +37,7 @@ VARIABLES wanted, disc,     \* the two cache maps
           cfg,              \* [capW, capD, lookahead, maxAge, maxLen]  the options (fixed per history)
           admitted,         \* {<<i, k>>} keys of chains admitted (remote or own), all prefixes
           ever,             \* {<<i, k>>} keys the node itself ever wanted: passed to Lookup (non-zero) or own prefixes
-          ata,              \* {<<i, k>>} asked-for (or own) keys admitted while being asked for
+          ata,              \* {<<i, k>>} solicited and available: asked for and then admitted, found by a lookup, or own
           last              \* observation of the last call (what the caller saw), see the invariants
 cxvars == <<wanted, disc, prog, cfg, admitted, ever, ata, last>>
 
@@ -85,16 +85,19 @@ Lookup(i, k) ==
   /\ ever' = ever \cup {<<i, k>>}
   /\ IF HasChain(W(i), k)
      THEN /\ wanted' = Put(wanted, i, Touch(W(i), k)) /\ disc' = disc
+          /\ ata' = ata \cup {<<i, k>>}
           /\ last' = [kind |-> "Lookup", inst |-> i, key |-> k, ret |-> Val(W(i), k), stored |-> TRUE]
      ELSE LET w1 == Touch(W(i), k) IN         \* wanted.Get touches a placeholder too
           IF LookupPromotes /\ k \in Keys(D(i))
           THEN /\ wanted' = Put(wanted, i, Add(w1, k, Val(D(i), k), cfg.capW))
                /\ disc' = Put(disc, i, Remove(D(i), k))
+               /\ ata' = ata \cup {<<i, k>>}       \* asked for while held: from now on a solicited chain
                /\ last' = [kind |-> "Lookup", inst |-> i, key |-> k, ret |-> Val(D(i), k), stored |-> TRUE]
           ELSE /\ wanted' = Put(wanted, i, ContainsOrAdd(w1, k, NoChain, cfg.capW))
                /\ disc' = Put(disc, i, D(i))
+               /\ ata' = ata
                /\ last' = [kind |-> "Lookup", inst |-> i, key |-> k, ret |-> NoChain, stored |-> Stored(i, k)]
-  /\ UNCHANGED <<prog, cfg, admitted, ata>>
+  /\ UNCHANGED <<prog, cfg, admitted>>
 
 \* ------------------------------------------------------------------ cacheAsWantedChain
 RECURSIVE FileWanted(_, _, _)
